@@ -17,11 +17,35 @@ def showExcept {β : Type} (f : β → String) : Except Py.Err β → String
   | .ok b => f b
   | .error e => showErr e
 
+def showELL : ELL Float → String
+  | .negInf => "ninf"
+  | .fin x => showFloat x
+
 def handle : List String → Option String
   | ["src_get_tolerance", xs] => some (match parseList? parseRat? xs with
       | some xs => showList showRat (xs.map Src.get_tolerance) | none => "bad-op")
   | ["src_bin1d_vec", rc, bins, ps] => some (match parseList? parseRat? bins, parseList? parseRat? ps with
       | some bins, some ps => showList (fun p => showExcept showInt (Src.bin1d_vec p bins (rc == "1"))) ps
+      | _, _ => "bad-op")
+  | ["src_get_index_of", lons, lats, xs, ys, bbox, idxm] => some (
+      match parseList? parseRat? lons, parseList? parseRat? lats, parseList? parseRat? xs, parseList? parseRat? ys,
+        parseList2? parseRat? bbox, parseList2? parseRat? idxm with
+      | some lons, some lats, some xs, some ys, some bbox, some idxm =>
+          showExcept (showList showInt) (Src.get_index_of lons lats xs ys bbox idxm)
+      | _, _, _, _, _, _ => "bad-op")
+  | ["src_get_masked", lons, lats, xs, ys, bbox] => some (
+      match parseList? parseRat? lons, parseList? parseRat? lats, parseList? parseRat? xs, parseList? parseRat? ys,
+        parseList2? parseRat? bbox with
+      | some lons, some lats, some xs, some ys, some bbox =>
+          showExcept (showList (fun b => if b then "1" else "0")) (Src.get_masked lons lats xs ys bbox)
+      | _, _, _, _, _ => "bad-op")
+  | ["src_compute_vertex", x, y, dh, tol] => some (match parseRat? x, parseRat? y, parseRat? dh, parseRat? tol with
+      | some x, some y, some dh, some tol =>
+          let r := Src.compute_vertex (x, y) dh tol
+          showList showRat [r.1.1, r.1.2, r.2.1.1, r.2.1.2, r.2.2.1.1, r.2.2.1.2, r.2.2.2.1, r.2.2.2.2]
+      | _, _, _, _ => "bad-op")
+  | ["src_discretize", rc, bins, ps] => some (match parseList? parseRat? bins, parseList? parseRat? ps with
+      | some bins, some ps => showExcept (showList showRat) (Src.discretize ps bins (rc == "1"))
       | _, _ => "bad-op")
   | ["src_cleaner_range", s, e, h, ds, dh] => some (
       match parseRat? s, parseRat? e, parseRat? h, parseInt? ds, parseInt? dh with
@@ -48,6 +72,16 @@ def handle : List String → Option String
           let r := Src.nbd_number_test_ndarray (fun x t u => x * 0.25 + t * 0.5 + u * 0.125) mean n var eps
           s!"{showFloat r.1},{showFloat r.2}"
       | _, _, _, _ => "bad-op")
+  | ["src_number_test", mu, n] => some (match parseFloat? mu, n.toNat? with
+      | some mu, some n =>
+          let r := Src.number_test (fun x m => x * 0.25 + m * 0.5) mu n
+          s!"{showFloat r.1.1},{showFloat r.1.2},{r.2.1},{showFloat r.2.2}"
+      | _, _ => "bad-op")
+  | ["src_negative_binomial_number_test", mean, n, var] => some (match parseFloat? mean, n.toNat?, parseFloat? var with
+      | some mean, some n, some var =>
+          let r := Src.negative_binomial_number_test (fun x t u => x * 0.25 + t * 0.5 + u * 0.125) var mean n
+          s!"{showFloat r.1.1},{showFloat r.1.2},{r.2.1},{showFloat r.2.2}"
+      | _, _, _ => "bad-op")
   | ["src_t_test_ndarray", ra, rb, n, na, nb, alpha] => some (
       match parseList? parseFloat? ra, parseList? parseFloat? rb, parseFloat? n, parseFloat? na, parseFloat? nb,
         parseFloat? alpha with
@@ -55,6 +89,34 @@ def handle : List String → Option String
           let r := Src.t_test_ndarray (fun q df => q * 2.0 + df * 0.125) ra rb n na nb alpha
           showList showFloat [r.1, r.2.1, r.2.2.1, r.2.2.2.1, r.2.2.2.2]
       | _, _, _, _, _, _ => "bad-op")
+  | ["src_paired_t_test", ra, rb, n, na, nb, alpha] => some (
+      match parseList? parseFloat? ra, parseList? parseFloat? rb, n.toNat?, parseFloat? na, parseFloat? nb,
+        parseFloat? alpha with
+      | some ra, some rb, some n, some na, some nb, some alpha =>
+          let r := Src.paired_t_test (fun q df => q * 2.0 + df * 0.125) alpha (ra, na) (rb, nb) n
+          showList showFloat [r.1.1, r.1.2, r.2.1, r.2.2.1, r.2.2.2]
+      | _, _, _, _, _, _ => "bad-op")
+  | ["src_binary_paired_t_test", d1, d2, n, na, nb, alpha, counts] => some (
+      match parseList? parseFloat? d1, parseList? parseFloat? d2, n.toNat?, parseFloat? na, parseFloat? nb,
+        parseFloat? alpha, parseList? String.toNat? counts with
+      | some d1, some d2, some n, some na, some nb, some alpha, some counts =>
+          let r := Src.binary_paired_t_test (fun q df => q * 2.0 + df * 0.125) alpha ([], na) ([], nb) d1 d2 counts n
+          showList showFloat [r.1.1, r.1.2, r.2.1, r.2.2.1, r.2.2.2]
+      | _, _, _, _, _, _, _ => "bad-op")
+  -- float64 layer; numpy.log replaced by the exact function x ↦ x/4 + 3 on both sides (tests the plumbing)
+  | ["src_w_test_inputs", ra, rb, n, n1, n2] => some (
+      match parseList? parseRat? ra, parseList? parseRat? rb, n.toNat?, parseRat? n1, parseRat? n2 with
+      | some ra, some rb, some n, some n1, some n2 =>
+          let r := Src.w_test_inputs (fun x => Soft64.fadd (Soft64.fmul x (1 / 4)) 3) (ra, 0) (rb, 0) n n1 n2
+          s!"{showList showRat r.1};{showRat r.2}"
+      | _, _, _, _, _ => "bad-op")
+  | ["src_matrix_binary_t_test", ra, rb, n, na, nb, alpha, counts] => some (
+      match parseList? parseFloat? ra, parseList? parseFloat? rb, parseFloat? n, parseFloat? na, parseFloat? nb,
+        parseFloat? alpha, parseList? String.toNat? counts with
+      | some ra, some rb, some n, some na, some nb, some alpha, some counts =>
+          let r := Src.matrix_binary_t_test (fun q df => q * 2.0 + df * 0.125) ra rb n na nb alpha counts
+          showList showFloat [r.1, r.2.1, r.2.2.1, r.2.2.2.1, r.2.2.2.2]
+      | _, _, _, _, _, _, _ => "bad-op")
   | ["src_brier_score_ndarray", fc, obs, dims] => some (
       match parseList? parseFloat? fc, parseList? String.toNat? obs, parseList? String.toNat? dims with
       | some fc, some obs, some dims => showFloat (Src.brier_score_ndarray fc obs dims)
@@ -73,6 +135,53 @@ def handle : List String → Option String
           (match Src.poisson_likelihood_stat fc obs (uoc == "1") (nl == "1") with
            | .negInf => "ninf"
            | .fin x => showFloat x)
+      | _, _ => "bad-op")
+  | ["src_binary_joint_log_likelihood_ndarray", fc, obs] => some (
+      match parseList? parseFloat? fc, parseList? String.toNat? obs with
+      | some fc, some obs => showFloat (Src.binary_joint_log_likelihood_ndarray fc obs)
+      | _, _ => "bad-op")
+  | ["src_cumulative_square_diff", a, b] => some (match parseList? parseFloat? a, parseList? parseFloat? b with
+      | some a, some b => showFloat (Src.cumulative_square_diff a b) | _, _ => "bad-op")
+  | ["src_binary_spatial_likelihood", ncat, nfore, sc, cnt] => some (
+      match ncat.toNat?, parseFloat? nfore, parseList? parseFloat? sc, parseList? String.toNat? cnt with
+      | some ncat, some nfore, some sc, some cnt => showList showFloat (Src.binary_spatial_likelihood ncat nfore sc cnt)
+      | _, _, _, _ => "bad-op")
+  | ["src_poisson_spatial_likelihood", ncat, nfore, sc, cnt] => some (
+      match ncat.toNat?, parseFloat? nfore, parseList? parseFloat? sc, parseList? String.toNat? cnt with
+      | some ncat, some nfore, some sc, some cnt => showList showFloat (Src.poisson_spatial_likelihood ncat nfore sc cnt)
+      | _, _, _, _ => "bad-op")
+  | ["src_compute_likelihood", g, r, ecc, nobs] => some (
+      match parseList? String.toNat? g, parseList? parseFloat? r, parseFloat? ecc, nobs.toNat? with
+      | some g, some r, some ecc, some nobs =>
+          let o := Src.compute_likelihood g r ecc nobs
+          s!"{showELL o.1},{match o.2 with | none => "nan" | some x => showELL x}"
+      | _, _, _, _ => "bad-op")
+  | ["src_geographical_area_from_bounds", a, b, c, d] => some (
+      match parseFloat? a, parseFloat? b, parseFloat? c, parseFloat? d with
+      | some a, some b, some c, some d =>
+          showFloat (Src.geographical_area_from_bounds Float.cos 3.141592653589793 a b c d)
+      | _, _, _, _ => "bad-op")
+  -- C09 (float64 sample and queries as exact rationals; one result per query)
+  | ["src_ecdf", xs] => some (match parseList? parseRat? xs with
+      | some xs => let r := Src.ecdf xs; s!"{showList showRat r.1};{showList showRat r.2}"
+      | none => "bad-op")
+  | ["src_greater_equal_ecdf", xs, vs] => some (match parseList? parseRat? xs, parseList? parseRat? vs with
+      | some xs, some vs => showList (fun v => showOpt showRat (Src.greater_equal_ecdf xs v)) vs
+      | _, _ => "bad-op")
+  | ["src_less_equal_ecdf", xs, vs] => some (match parseList? parseRat? xs, parseList? parseRat? vs with
+      | some xs, some vs => showList (fun v => showOpt showRat (Src.less_equal_ecdf xs v)) vs
+      | _, _ => "bad-op")
+  | ["src_min_or_none", xs] => some (match parseList? parseRat? xs with
+      | some xs => showOpt showRat (Src.min_or_none xs) | none => "bad-op")
+  | ["src_max_or_none", xs] => some (match parseList? parseRat? xs with
+      | some xs => showOpt showRat (Src.max_or_none xs) | none => "bad-op")
+  | ["src_sup_dist", a, b] => some (match parseList? parseRat? a, parseList? parseRat? b with
+      | some a, some b => showRat (Src.sup_dist a b) | _, _ => "bad-op")
+  | ["src_sup_dist_na", a, b] => some (match parseList? parseRat? a, parseList? parseRat? b with
+      | some a, some b => showRat (Src.sup_dist_na a b) | _, _ => "bad-op")
+  | ["src_get_quantiles", xs, vs] => some (match parseList? parseRat? xs, parseList? parseRat? vs with
+      | some xs, some vs => showList (fun v => let r := Src.get_quantiles xs v
+                                               s!"{showOpt showRat r.1}:{showOpt showRat r.2}") vs
       | _, _ => "bad-op")
   | _ => none
 end Drive.Src
